@@ -39,7 +39,11 @@ def case_st(draw):
                     # re-configuration that arrives while the burst is already queued (between enqueue and its tick)
                     "between": draw(st.one_of(st.just([]), st.just([]), st.lists(cmd_st, min_size=1, max_size=2))),
                     # the same sender goes on transmitting in the following frames (consecutive ticks)
-                    "stream": draw(st.sampled_from([0, 0, 0, 2, 5]))})
+                    "stream": draw(st.sampled_from([0, 0, 0, 2, 5])),
+                    # the same frame number once more after a re-configuration (another timeslot of the frame arriving late, a clock
+                    # that was restarted or wrapped): routing must follow the configuration in force NOW
+                    "again": draw(st.one_of(st.none(), st.none(), st.fixed_dictionaries({
+                        "cmds": st.lists(cmd_st, min_size=1, max_size=2), "t": st.integers(0, n - 1), "tn": st.integers(0, 7)})))})
     return {"cfg": cfg, "script": script, "txs": txs}
 
 
@@ -60,6 +64,13 @@ def oracle(case):
                     for (j, verb, args) in tx.get("between", []):
                         s.cmd(j, verb, list(args))
                 s.tick(fn)
+            ag = tx.get("again")
+            if ag:
+                for (j, verb, args) in ag["cmds"]:
+                    s.cmd(j, verb, list(args))
+                for who in (i, ag["t"]):
+                    s.arrive(who, {"ver": s.model.trx[who].ver, "fn": fn, "tn": ag["tn"], "pwr": tx["pwr"], "bits": tx["bits"]})
+                    s.tick(fn)
         nt = any((f["recipients"] >= 1 and f["running_nonrecipients"] >= 1) or f["hopping"] for f in s.fwd_log)
         cl = ["trx=%d" % s.n]
         if any(f["hopping"] for f in s.fwd_log):
